@@ -9,7 +9,8 @@
    The two ghost flags l_cdev / l_ldev do not exist in the Go code: the model
    sets them in the branches where the code is known to leave l.column /
    l.line different from the column and line of the current offset (see
-   props/C21.v); they influence no other field. *)
+   props/C21.v); they influence no other field.  l_tsyn is the field
+   templateSyntax: true for scanTemplate, false for scanProgram. *)
 From Verif Require Import Bytes Utf8 Facts_lexer.
 Open Scope N_scope.
 
@@ -27,38 +28,39 @@ Record lexer := mkL {
   l_tag : bytes; l_att : bytes; l_tidx : N; l_tctx : N;
   l_raw : option bytes; l_last : N; l_tot : N;
   l_out : list token;            (* emitted tokens, last first *)
-  l_cdev : bool; l_ldev : bool   (* ghost *) }.
+  l_cdev : bool; l_ldev : bool;  (* ghost *)
+  l_tsyn : bool                  (* templateSyntax *) }.
 
 Definition set_src (v : bytes) (b : N) (l : lexer) : lexer :=
-  mkL v b (l_line l) (l_col l) (l_ctx l) (l_ctxs l) (l_tag l) (l_att l) (l_tidx l) (l_tctx l) (l_raw l) (l_last l) (l_tot l) (l_out l) (l_cdev l) (l_ldev l).
+  mkL v b (l_line l) (l_col l) (l_ctx l) (l_ctxs l) (l_tag l) (l_att l) (l_tidx l) (l_tctx l) (l_raw l) (l_last l) (l_tot l) (l_out l) (l_cdev l) (l_ldev l) (l_tsyn l).
 Definition set_line (v : N) (l : lexer) : lexer :=
-  mkL (l_src l) (l_base l) v (l_col l) (l_ctx l) (l_ctxs l) (l_tag l) (l_att l) (l_tidx l) (l_tctx l) (l_raw l) (l_last l) (l_tot l) (l_out l) (l_cdev l) (l_ldev l).
+  mkL (l_src l) (l_base l) v (l_col l) (l_ctx l) (l_ctxs l) (l_tag l) (l_att l) (l_tidx l) (l_tctx l) (l_raw l) (l_last l) (l_tot l) (l_out l) (l_cdev l) (l_ldev l) (l_tsyn l).
 Definition set_col (v : N) (l : lexer) : lexer :=
-  mkL (l_src l) (l_base l) (l_line l) v (l_ctx l) (l_ctxs l) (l_tag l) (l_att l) (l_tidx l) (l_tctx l) (l_raw l) (l_last l) (l_tot l) (l_out l) (l_cdev l) (l_ldev l).
+  mkL (l_src l) (l_base l) (l_line l) v (l_ctx l) (l_ctxs l) (l_tag l) (l_att l) (l_tidx l) (l_tctx l) (l_raw l) (l_last l) (l_tot l) (l_out l) (l_cdev l) (l_ldev l) (l_tsyn l).
 Definition set_ctx (v : N) (l : lexer) : lexer :=
-  mkL (l_src l) (l_base l) (l_line l) (l_col l) v (l_ctxs l) (l_tag l) (l_att l) (l_tidx l) (l_tctx l) (l_raw l) (l_last l) (l_tot l) (l_out l) (l_cdev l) (l_ldev l).
+  mkL (l_src l) (l_base l) (l_line l) (l_col l) v (l_ctxs l) (l_tag l) (l_att l) (l_tidx l) (l_tctx l) (l_raw l) (l_last l) (l_tot l) (l_out l) (l_cdev l) (l_ldev l) (l_tsyn l).
 Definition set_ctxs (v : list N) (l : lexer) : lexer :=
-  mkL (l_src l) (l_base l) (l_line l) (l_col l) (l_ctx l) v (l_tag l) (l_att l) (l_tidx l) (l_tctx l) (l_raw l) (l_last l) (l_tot l) (l_out l) (l_cdev l) (l_ldev l).
+  mkL (l_src l) (l_base l) (l_line l) (l_col l) (l_ctx l) v (l_tag l) (l_att l) (l_tidx l) (l_tctx l) (l_raw l) (l_last l) (l_tot l) (l_out l) (l_cdev l) (l_ldev l) (l_tsyn l).
 Definition set_tag (v : bytes) (l : lexer) : lexer :=
-  mkL (l_src l) (l_base l) (l_line l) (l_col l) (l_ctx l) (l_ctxs l) v (l_att l) (l_tidx l) (l_tctx l) (l_raw l) (l_last l) (l_tot l) (l_out l) (l_cdev l) (l_ldev l).
+  mkL (l_src l) (l_base l) (l_line l) (l_col l) (l_ctx l) (l_ctxs l) v (l_att l) (l_tidx l) (l_tctx l) (l_raw l) (l_last l) (l_tot l) (l_out l) (l_cdev l) (l_ldev l) (l_tsyn l).
 Definition set_att (v : bytes) (l : lexer) : lexer :=
-  mkL (l_src l) (l_base l) (l_line l) (l_col l) (l_ctx l) (l_ctxs l) (l_tag l) v (l_tidx l) (l_tctx l) (l_raw l) (l_last l) (l_tot l) (l_out l) (l_cdev l) (l_ldev l).
+  mkL (l_src l) (l_base l) (l_line l) (l_col l) (l_ctx l) (l_ctxs l) (l_tag l) v (l_tidx l) (l_tctx l) (l_raw l) (l_last l) (l_tot l) (l_out l) (l_cdev l) (l_ldev l) (l_tsyn l).
 Definition set_tidx (v : N) (l : lexer) : lexer :=
-  mkL (l_src l) (l_base l) (l_line l) (l_col l) (l_ctx l) (l_ctxs l) (l_tag l) (l_att l) v (l_tctx l) (l_raw l) (l_last l) (l_tot l) (l_out l) (l_cdev l) (l_ldev l).
+  mkL (l_src l) (l_base l) (l_line l) (l_col l) (l_ctx l) (l_ctxs l) (l_tag l) (l_att l) v (l_tctx l) (l_raw l) (l_last l) (l_tot l) (l_out l) (l_cdev l) (l_ldev l) (l_tsyn l).
 Definition set_tctx (v : N) (l : lexer) : lexer :=
-  mkL (l_src l) (l_base l) (l_line l) (l_col l) (l_ctx l) (l_ctxs l) (l_tag l) (l_att l) (l_tidx l) v (l_raw l) (l_last l) (l_tot l) (l_out l) (l_cdev l) (l_ldev l).
+  mkL (l_src l) (l_base l) (l_line l) (l_col l) (l_ctx l) (l_ctxs l) (l_tag l) (l_att l) (l_tidx l) v (l_raw l) (l_last l) (l_tot l) (l_out l) (l_cdev l) (l_ldev l) (l_tsyn l).
 Definition set_raw (v : option bytes) (l : lexer) : lexer :=
-  mkL (l_src l) (l_base l) (l_line l) (l_col l) (l_ctx l) (l_ctxs l) (l_tag l) (l_att l) (l_tidx l) (l_tctx l) v (l_last l) (l_tot l) (l_out l) (l_cdev l) (l_ldev l).
+  mkL (l_src l) (l_base l) (l_line l) (l_col l) (l_ctx l) (l_ctxs l) (l_tag l) (l_att l) (l_tidx l) (l_tctx l) v (l_last l) (l_tot l) (l_out l) (l_cdev l) (l_ldev l) (l_tsyn l).
 Definition set_last (v : N) (l : lexer) : lexer :=
-  mkL (l_src l) (l_base l) (l_line l) (l_col l) (l_ctx l) (l_ctxs l) (l_tag l) (l_att l) (l_tidx l) (l_tctx l) (l_raw l) v (l_tot l) (l_out l) (l_cdev l) (l_ldev l).
+  mkL (l_src l) (l_base l) (l_line l) (l_col l) (l_ctx l) (l_ctxs l) (l_tag l) (l_att l) (l_tidx l) (l_tctx l) (l_raw l) v (l_tot l) (l_out l) (l_cdev l) (l_ldev l) (l_tsyn l).
 Definition set_tot (v : N) (l : lexer) : lexer :=
-  mkL (l_src l) (l_base l) (l_line l) (l_col l) (l_ctx l) (l_ctxs l) (l_tag l) (l_att l) (l_tidx l) (l_tctx l) (l_raw l) (l_last l) v (l_out l) (l_cdev l) (l_ldev l).
+  mkL (l_src l) (l_base l) (l_line l) (l_col l) (l_ctx l) (l_ctxs l) (l_tag l) (l_att l) (l_tidx l) (l_tctx l) (l_raw l) (l_last l) v (l_out l) (l_cdev l) (l_ldev l) (l_tsyn l).
 Definition set_out (v : list token) (l : lexer) : lexer :=
-  mkL (l_src l) (l_base l) (l_line l) (l_col l) (l_ctx l) (l_ctxs l) (l_tag l) (l_att l) (l_tidx l) (l_tctx l) (l_raw l) (l_last l) (l_tot l) v (l_cdev l) (l_ldev l).
+  mkL (l_src l) (l_base l) (l_line l) (l_col l) (l_ctx l) (l_ctxs l) (l_tag l) (l_att l) (l_tidx l) (l_tctx l) (l_raw l) (l_last l) (l_tot l) v (l_cdev l) (l_ldev l) (l_tsyn l).
 Definition set_cdev (v : bool) (l : lexer) : lexer :=
-  mkL (l_src l) (l_base l) (l_line l) (l_col l) (l_ctx l) (l_ctxs l) (l_tag l) (l_att l) (l_tidx l) (l_tctx l) (l_raw l) (l_last l) (l_tot l) (l_out l) v (l_ldev l).
+  mkL (l_src l) (l_base l) (l_line l) (l_col l) (l_ctx l) (l_ctxs l) (l_tag l) (l_att l) (l_tidx l) (l_tctx l) (l_raw l) (l_last l) (l_tot l) (l_out l) v (l_ldev l) (l_tsyn l).
 Definition set_ldev (v : bool) (l : lexer) : lexer :=
-  mkL (l_src l) (l_base l) (l_line l) (l_col l) (l_ctx l) (l_ctxs l) (l_tag l) (l_att l) (l_tidx l) (l_tctx l) (l_raw l) (l_last l) (l_tot l) (l_out l) (l_cdev l) v.
+  mkL (l_src l) (l_base l) (l_line l) (l_col l) (l_ctx l) (l_ctxs l) (l_tag l) (l_att l) (l_tidx l) (l_tctx l) (l_raw l) (l_last l) (l_tot l) (l_out l) (l_cdev l) v (l_tsyn l).
 
 (* Outcome of a piece of the lexer.  Err l: the Go code returned
    l.errorf(...) in state l (position: l_line, l_col, l_base).  Fault: an index
@@ -123,14 +125,16 @@ Definition emit_at (line col : N) (cd ld : bool) (typ length : N) (l : lexer) : 
   let tok := mkTok typ start endp length line col (l_line l) ctx (l_tag l) (l_att l) cd ld in
   let l1 := set_out (tok :: l_out l) (set_tot tot l) in
   let l2 :=
-    if typ =? gen_tokenRaw then
-      if l_last l1 =? gen_tokenStartStatement then set_raw (Some []) l1 else l1
-    else if typ =? gen_tokenIdentifier then
-      match l_raw l1 with
-      | Some _ => if l_last l1 =? gen_tokenRaw then set_raw (Some (take length (l_src l1))) l1 else l1
-      | None => l1
-      end
-    else if typ =? gen_tokenEnd then set_raw None l1
+    if l_tsyn l1 then
+      if typ =? gen_tokenRaw then
+        if l_last l1 =? gen_tokenStartStatement then set_raw (Some []) l1 else l1
+      else if typ =? gen_tokenIdentifier then
+        match l_raw l1 with
+        | Some _ => if l_last l1 =? gen_tokenRaw then set_raw (Some (take length (l_src l1))) l1 else l1
+        | None => l1
+        end
+      else if typ =? gen_tokenEnd then set_raw None l1
+      else l1
     else l1 in
   if 0 <? length then
     Ok (set_tidx (l_tidx l2 - length) (set_src (drop length (l_src l2)) (l_base l2 + length) (set_last typ l2)))
